@@ -256,7 +256,7 @@ def minimise(engine, scenario, target, budget=300, log=None):
     first.  Returns (scenario, violation, executions)."""
     def run(s):
         try:
-            r = engine.execute(s)
+            r = isolated(engine.execute, s)
         except BaseException:
             return None
         for v in r['violations']:
@@ -422,11 +422,16 @@ def scratch_base():
 
 
 _WORLD_DIR = None
+_IN_CHILD = [False]
 
 
 def world_root():
-    """Per-process world directory (created lazily, removed at exit)."""
+    """Per-process world directory (created lazily, removed at exit).  A
+    forked run (see `isolated`) uses its parent's directory: the parent waits
+    for it, so the directory is never used by two runs at once."""
     global _WORLD_DIR
+    if _WORLD_DIR is not None and _IN_CHILD[0]:
+        return _WORLD_DIR[1]
     if _WORLD_DIR is None or _WORLD_DIR[0] != os.getpid():
         d = tempfile.mkdtemp(prefix='picosim-%d-' % os.getpid(),
                              dir=scratch_base())
@@ -457,3 +462,83 @@ def sweep_stale_worlds():
                 continue
             if not os.path.exists('/proc/%d' % pid):
                 shutil.rmtree(os.path.join(base, n), ignore_errors=True)
+
+
+# ---------------------------------------------------------------------------
+# one run = one forked process
+
+_PRELOADED = [False]
+
+
+def preload():
+    """Import (never execute) everything a run needs, once in the parent, so
+    that forked runs do not pay for imports."""
+    if _PRELOADED[0]:
+        return
+    _PRELOADED[0] = True
+    import importlib
+    for m in ('pico8.tool', 'pico8.build.build', 'pico8.game.file',
+              'pico8.game.game', 'pico8.game.compress',
+              'pico8.game.formatter.p8', 'pico8.game.formatter.p8png',
+              'pico8.game.formatter.rom', 'pico8.lua.lua', 'pico8.lua.lexer',
+              'pico8.lua.parser', 'pico8.gfx.gfx', 'pico8.gff.gff',
+              'pico8.map.map', 'pico8.sfx.sfx', 'pico8.music.music', 'png',
+              'tempfile', 'zlib', 'struct', 'argparse', 'csv', 'shutil',
+              'picosim.world', 'picosim.refcodec', 'picosim.models'):
+        try:
+            importlib.import_module(m)
+        except Exception:
+            pass
+
+
+def isolated(fn, *args, **kwargs):
+    """Run fn(*args) in a forked child and return its (picklable) result.
+
+    Every simulated run starts from the same process image (picotool imported,
+    nothing executed), so process-wide state that a change to picotool might
+    introduce (module-level caches, mutable defaults) can never leak from one
+    run into the next: a violation is a function of the scenario alone and
+    replays.  Histories that *should* see such state (two builds in one
+    process, a reload after a rewrite) are written into the scenario itself.
+    """
+    import pickle
+    if os.environ.get('PICOSIM_NO_FORK'):
+        return fn(*args, **kwargs)
+    preload()
+    world_root()                 # make sure the directory exists in the parent
+    r, w = os.pipe()
+    sys.stdout.flush()
+    sys.stderr.flush()
+    pid = os.fork()
+    if pid == 0:
+        code = 0
+        try:
+            os.close(r)
+            _IN_CHILD[0] = True
+            try:
+                out = ('ok', fn(*args, **kwargs))
+            except BaseException:
+                out = ('exc', traceback.format_exc())
+            data = pickle.dumps(out, protocol=pickle.HIGHEST_PROTOCOL)
+            with os.fdopen(w, 'wb') as fh:
+                fh.write(data)
+        except BaseException:
+            code = 3
+        finally:
+            os._exit(code)
+    os.close(w)
+    chunks = []
+    with os.fdopen(r, 'rb') as fh:
+        while True:
+            b = fh.read(1 << 16)
+            if not b:
+                break
+            chunks.append(b)
+    _, status = os.waitpid(pid, 0)
+    data = b''.join(chunks)
+    if not data:
+        raise HarnessError('isolated run died (wait status %d)' % status)
+    kind, val = pickle.loads(data)
+    if kind == 'exc':
+        raise HarnessError('executor raised:\n' + val)
+    return val
